@@ -127,6 +127,19 @@ fn oracle(c: &BatchCase) -> Verdict {
         let pe = be.encode_polynomial_new(&raw);
         check!(pe.data().iter().zip(raw.iter()).all(|(a, b)| *a == b % t) && pe.coeff_count() == n, "encode_polynomial does not reduce modulo t");
         check!(be.decode_polynomial_new(&pe) == raw.iter().map(|r| r % t).collect::<Vec<_>>(), "decode_polynomial(encode_polynomial(x)) != x mod t");
+        // the destination form, into vectors that were used before (longer, equal, shorter than the plaintext), for full and
+        // short coefficient lists: as a polynomial (zero-padded) the result must be the encoded list modulo t
+        for l in [1usize, 1 + pick_idx(c.len_sel, n), n] {
+            let ps = be.encode_polynomial_new(&raw[..l]);
+            let want: Vec<u64> = (0..n).map(|i| if i < l { raw[i] % t } else { 0 }).collect();
+            for dl in [n + 3, n, l.saturating_sub(1), 0] {
+                let mut dest: Vec<u64> = (0..dl).map(|i| (i as u64 * 13 + 7) % t).collect();
+                if catch(|| be.decode_polynomial(&ps, &mut dest)).is_err() { return fail(format!("decode_polynomial into a used destination of length {dl} panicked (list of {l} coefficients)")); }
+                check!(dest.len() <= n.max(dl), "decode_polynomial returned {} coefficients", dest.len());
+                let mut got = dest.clone(); got.resize(n.max(dest.len()), 0);
+                check!(got[..n] == want[..] && got[n..].iter().all(|x| *x == 0), "decode_polynomial of a {l}-coefficient list into a previously used destination of length {dl} is not the encoded list modulo t (N={n}, t={t})");
+            }
+        }
         evals += 6;
     }
     // Galois action
